@@ -71,6 +71,24 @@ CHECKS["C17"] = (
     "local zone), Z / offset / no designator strings, epoch seconds, datetime64 to whole seconds, None -> None, mixed "
     "sequences elementwise, ISO round trip keeps microseconds.", "DESIGN.md#c17",
     "The datetime contract model is trusted; it is cross-checked against CPython/numpy on path witnesses.")
+CHECKS["C18"] = (
+    "The real FileCache code runs over an in-memory file system with symbolic file sizes, symbolic distinct "
+    "access/modification stamps and a symbolic maximum size. One operation from every cache state over {A,B,C} (+ a "
+    "foreign file) that satisfies the invariant: get of 1..2 URIs (thorough 3; duplicates, comment variants), remove, "
+    "purge, reopen, sequential and parallel (permuted worker order). Proved on every path for all sizes/stamps: "
+    "returned paths exist and hold the resource, hits are not downloaded, distinct files, entries == cache files on disk, "
+    "foreign files untouched, total <= maximum (enlarged only if the request alone exceeds it), evicted files are the "
+    "least recently used and never part of the request, hits refresh recency, sequential == parallel. Induction over "
+    "the invariant covers histories of any length.", "DESIGN.md#c18",
+    "File system / clock / thread pool are models (props/cache_world.py); counterexamples are replayed in a real directory.")
+CHECKS["C19"] = (
+    "Same harness with a fault injected at every download position of requests of 1..2 URIs (thorough 3): not-found "
+    "(tolerant/strict), exception before any write, exception after a partial write, exception in post-processing, "
+    "validation failure with successful / failed re-download. Proved for all sizes/stamps: the request omits the URI or "
+    "raises, other requested and cached URIs stay intact, entries == cache files on disk and none is partial, the "
+    "failed URI is fetched again on retry, and after reopening the directory (crash/restart) it is served with "
+    "complete data, never from a partial or rejected file.", "DESIGN.md#c19",
+    "File system / resource faults are models; counterexamples are replayed in a real directory.")
 NA = {}
 
 ALL = [f"C{i:02d}" for i in range(1, 21)]
